@@ -112,7 +112,7 @@ Qed.
 (* ---------- statement 3a: whatever was accepted is exactly what the config key holds ---------- *)
 Theorem accepted_config_is_stored_pf s o s' : run_cmd s o = (s', ROk) -> stored s' = Some (served s').
 Proof.
-  destruct o as [c f|c f|c f|t k v f|t k v f|v f|c f]; cbn [run_cmd].
+  destruct o as [c f|c f|c f|t k v f|t k v f|v f|c f|m f|id t rate dflt f|t rate f]; cbn [run_cmd].
   - unfold do_set_schedule. destruct (sched_invalid c); [discriminate|]. destruct (sched_deprecated c); [discriminate|].
     intros H. destruct (swap_persist_spec _ _ _ _ _ H) as (_&_&_&_&[(_&A&B)|(E&_)]); [congruence|discriminate].
   - unfold do_set_replication. destruct (repl_invalid c); [discriminate|].
@@ -146,6 +146,12 @@ Proof.
       * intros H; inv H. cbn. rewrite A. apply G; reflexivity.
       * match goal with |- context [persist ?a ?b ?c] => destruct (persist a b c) as [s3 ok3] end. discriminate.
     + intros H; inv H. cbn. rewrite A. apply G; reflexivity.
+  - unfold do_set_label_map.
+    intros H. destruct (swap_persist_spec _ _ _ _ _ H) as (_&_&_&_&[(_&A&B)|(E&_)]); [congruence|discriminate].
+  - unfold do_set_store_limit.
+    intros H. destruct (swap_persist_spec _ _ _ _ _ H) as (_&_&_&_&[(_&A&B)|(E&_)]); [congruence|discriminate].
+  - unfold do_set_all_limits.
+    intros H. destruct (swap_persist_spec _ _ _ _ _ H) as (_&_&_&_&[(_&A&B)|(E&_)]); [congruence|discriminate].
 Qed.
 
 (* ---------- statement 2: a rejected change leaves the served configuration exactly as it was ---------- *)
@@ -184,7 +190,7 @@ Qed.
 (* the six sections held by PersistOptions: every setter, every value, every fault *)
 Theorem rejected_keeps_served_pf s o s' r : run_cmd s o = (s', r) -> r <> ROk -> served s' = served s.
 Proof.
-  destruct o as [c f|c f|c f|t k v f|t k v f|v f|c f]; cbn [run_cmd]; intros H Hr.
+  destruct o as [c f|c f|c f|t k v f|t k v f|v f|c f|m f|id t rate dflt f|t rate f]; cbn [run_cmd]; intros H Hr.
   - unfold do_set_schedule in H. destruct (sched_invalid c); [inv H; reflexivity|]. destruct (sched_deprecated c); [inv H; reflexivity|].
     destruct (swap_persist_spec _ _ _ _ _ H) as (_&_&_&_&[(E&_)|(_&E)]); [congruence|exact E].
   - unfold do_set_replication in H. destruct (repl_invalid c); [inv H; reflexivity|].
@@ -226,6 +232,9 @@ Proof.
     destruct ok2; [inv H; congruence|].
     match type of H with context [persist ?a ?b ?c] => destruct (persist a b c) as [s3 ok3] eqn:E3 end.
     destruct (persist_spec _ _ _ _ _ E3) as (A3&_&_&_&_&_). inv H. rewrite A3. cbn. rewrite S2, A. cbn. apply with_rm_back.
+  - unfold do_set_label_map in H. destruct (swap_persist_spec _ _ _ _ _ H) as (_&_&_&_&[(E&_)|(_&E)]); [congruence|exact E].
+  - unfold do_set_store_limit in H. destruct (swap_persist_spec _ _ _ _ _ H) as (_&_&_&_&[(E&_)|(_&E)]); [congruence|exact E].
+  - unfold do_set_all_limits in H. destruct (swap_persist_spec _ _ _ _ _ H) as (_&_&_&_&[(E&_)|(_&E)]); [congruence|exact E].
 Qed.
 
 (* the served default rule (the effective replication settings while placement rules are on): a rejected change
@@ -234,7 +243,7 @@ Theorem rejected_keeps_rule_pf s o s' r :
   run_cmd s o = (s', r) -> r <> ROk -> rp_pr (c_repl (served s)) = true -> 0 < rp_max (c_repl (served s)) ->
   srule s' = srule s.
 Proof.
-  destruct o as [c f|c f|c f|t k v f|t k v f|v f|c f]; cbn [run_cmd]; intros H Hr Hp Hm.
+  destruct o as [c f|c f|c f|t k v f|t k v f|v f|c f|m f|id t rate dflt f|t rate f]; cbn [run_cmd]; intros H Hr Hp Hm.
   - unfold do_set_schedule in H. destruct (sched_invalid c); [inv H; reflexivity|]. destruct (sched_deprecated c); [inv H; reflexivity|].
     destruct (swap_persist_spec _ _ _ _ _ H) as (E&_); exact E.
   - unfold do_set_replication in H. destruct (repl_invalid c); [inv H; reflexivity|].
@@ -282,6 +291,9 @@ Proof.
     destruct ok2; [inv H; congruence|].
     match type of H with context [persist ?a ?b ?c] => destruct (persist a b c) as [s3 ok3] eqn:E3 end.
     destruct (persist_spec _ _ _ _ _ E3) as (_&B3&_). inv H. rewrite B3. cbn. rewrite S2, B. reflexivity.
+  - unfold do_set_label_map in H. destruct (swap_persist_spec _ _ _ _ _ H) as (E&_); exact E.
+  - unfold do_set_store_limit in H. destruct (swap_persist_spec _ _ _ _ _ H) as (E&_); exact E.
+  - unfold do_set_all_limits in H. destruct (swap_persist_spec _ _ _ _ _ H) as (E&_); exact E.
 Qed.
 
 Definition rejected_full : Prop :=
@@ -293,7 +305,7 @@ Proof. intros s o s' r H Hr. split; [eapply rejected_keeps_served_pf; eauto|eapp
 
 Definition base_conf : conf :=
   Conf (Sched 0 800 700 ["balance-region"; "balance-leader"; "hot-region"] [false; false; false; false; false; false] 0 3)
-       (Repl 3 [] "" true false) (PdSrv "auto" 3 true "table") [("reject-leader", [("zone", "z1")])] (4, 0, 0) (RMode "majority" "").
+       (Repl 3 [] "" true false) (PdSrv "auto" 3 true "table") [("reject-leader", [("zone", "z1")])] (4, 0, 0) (RMode "majority" "") [].
 
 (* regressions: the witnesses that refuted the statements before the fix commits, as they behave now *)
 Lemma regression_label_rollback :
@@ -337,7 +349,7 @@ Qed.
 
 Lemma rule_inv_step s o s' r : rule_inv s -> op_definite o -> run_cmd s o = (s', r) -> rule_inv s'.
 Proof.
-  destruct o as [c f|c f|c f|t k v f|t k v f|v f|c f]; cbn [run_cmd op_definite]; intros I Hd H.
+  destruct o as [c f|c f|c f|t k v f|t k v f|v f|c f|m f|id t rate dflt f|t rate f]; cbn [run_cmd op_definite]; intros I Hd H.
   - unfold do_set_schedule in H. destruct (sched_invalid c); [inv H; exact I|]. destruct (sched_deprecated c); [inv H; exact I|].
     destruct (swap_persist_spec _ _ _ _ _ H) as (A&B&C&_). unfold rule_inv in *. rewrite A, B, C. exact I.
   - assert (Hd' : forall i, f <> Fault GRule i FAfter) by (intros i ->; exact Hd).
@@ -384,6 +396,9 @@ Proof.
     destruct ok2; [inv H; exact I2|].
     match type of H with context [persist ?a ?b ?c] => destruct (persist a b c) as [s3 ok3] eqn:E3 end.
     inv H. eapply rule_frame_persist; [exact E3|exact I2].
+  - unfold do_set_label_map in H. destruct (swap_persist_spec _ _ _ _ _ H) as (A&B&C&_). unfold rule_inv in *. rewrite A, B, C. exact I.
+  - unfold do_set_store_limit in H. destruct (swap_persist_spec _ _ _ _ _ H) as (A&B&C&_). unfold rule_inv in *. rewrite A, B, C. exact I.
+  - unfold do_set_all_limits in H. destruct (swap_persist_spec _ _ _ _ _ H) as (A&B&C&_). unfold rule_inv in *. rewrite A, B, C. exact I.
 Qed.
 
 Lemma rule_inv_boot c0 : rule_inv (boot c0).
@@ -397,7 +412,7 @@ Definition init_inv (s : state) : Prop := rp_pr (c_repl (served s)) = true -> rm
 
 Lemma init_inv_step s o s' r : init_inv s -> run_cmd s o = (s', r) -> init_inv s'.
 Proof.
-  destruct o as [c f|c f|c f|t k v f|t k v f|v f|c f]; cbn [run_cmd]; intros I H.
+  destruct o as [c f|c f|c f|t k v f|t k v f|v f|c f|m f|id t rate dflt f|t rate f]; cbn [run_cmd]; intros I H.
   - unfold do_set_schedule in H. destruct (sched_invalid c); [inv H; exact I|]. destruct (sched_deprecated c); [inv H; exact I|].
     destruct (swap_persist_spec _ _ _ _ _ H) as (_&_&C&_&[(_&E&_)|(_&E)]); unfold init_inv in *; rewrite C, E; [cbn|]; exact I.
   - unfold do_set_replication in H. destruct (repl_invalid c); [inv H; exact I|].
@@ -463,6 +478,12 @@ Proof.
     + match type of H with context [persist ?a ?b ?c] => destruct (persist a b c) as [s3 ok3] eqn:E3 end.
       destruct (persist_spec _ _ _ _ _ E3) as (A3&_&_&D3&_). inv H. unfold init_inv in *. rewrite A3, D3. cbn. rewrite S2, R2, A, D. cbn.
       destruct (served s); exact I.
+  - unfold do_set_label_map in H.
+    destruct (swap_persist_spec _ _ _ _ _ H) as (_&_&C&_&[(_&E&_)|(_&E)]); unfold init_inv in *; rewrite C, E; [cbn; destruct (served s)|]; exact I.
+  - unfold do_set_store_limit in H.
+    destruct (swap_persist_spec _ _ _ _ _ H) as (_&_&C&_&[(_&E&_)|(_&E)]); unfold init_inv in *; rewrite C, E; [cbn; destruct (served s)|]; exact I.
+  - unfold do_set_all_limits in H.
+    destruct (swap_persist_spec _ _ _ _ _ H) as (_&_&C&_&[(_&E&_)|(_&E)]); unfold init_inv in *; rewrite C, E; [cbn; destruct (served s)|]; exact I.
 Qed.
 
 Lemma init_inv_boot c0 : init_inv (boot c0).
@@ -490,4 +511,119 @@ Proof.
     destruct (G _ Hn (rule_inv_boot c0) (init_inv_boot c0)) as (I&J&Ho).
     pose proof (rule_inv_step _ _ _ _ I Ho H) as I'. pose proof (init_inv_step _ _ _ _ J H) as J'.
     symmetry. apply I', J', Hp.
+Qed.
+
+(* ====================================================================================================
+   Histories WITH leader changes
+   ==================================================================================================== *)
+(* ---------- Reload is idempotent: reloading what a reload produced changes nothing ---------- *)
+Definition add_step (acc : list string) (d : string) : list string := if mem_str d acc then acc else (acc ++ [d])%list.
+Lemma mem_str_app x a b : mem_str x (a ++ b)%list = (mem_str x a || mem_str x b)%bool.
+Proof. unfold mem_str. apply existsb_app. Qed.
+Lemma add_step_mono ds : forall acc x, mem_str x acc = true -> mem_str x (fold_left add_step ds acc) = true.
+Proof.
+  induction ds as [|d r IH]; intros acc x H; cbn [fold_left]; [exact H|]. apply IH. unfold add_step.
+  destruct (mem_str d acc); [exact H|]. rewrite mem_str_app, H. reflexivity.
+Qed.
+Lemma add_step_in ds : forall acc d, In d ds -> mem_str d (fold_left add_step ds acc) = true.
+Proof.
+  induction ds as [|e r IH]; intros acc d Hin; [contradiction|]. cbn [fold_left]. destruct Hin as [->|Hin].
+  - apply add_step_mono. unfold add_step. destruct (mem_str d acc) eqn:E; [exact E|].
+    rewrite mem_str_app. cbn. rewrite String.eqb_refl. apply orb_true_r.
+  - apply IH; exact Hin.
+Qed.
+Lemma add_step_fix ds : forall acc, (forall d, In d ds -> mem_str d acc = true) -> fold_left add_step ds acc = acc.
+Proof.
+  induction ds as [|e r IH]; intros acc H; [reflexivity|]. cbn [fold_left]. unfold add_step at 2.
+  rewrite (H e (or_introl eq_refl)). apply IH. intros d Hd. apply H. right; exact Hd.
+Qed.
+Lemma add_defaults_idem l : add_defaults (add_defaults l) = add_defaults l.
+Proof.
+  unfold add_defaults. change (fun acc d => if mem_str d acc then acc else (acc ++ [d])%list) with add_step.
+  apply add_step_fix. intros d Hd. apply add_step_in; exact Hd.
+Qed.
+Theorem reload_idem c : reload_conf (reload_conf c) = reload_conf c.
+Proof.
+  unfold reload_conf. cbn [c_sched c_repl c_pd c_lp c_ver c_rm c_limits sc_tol sc_low sc_high sc_scheds sc_dis sc_sbr sc_pay ps_dash ps_digit ps_trace ps_key].
+  rewrite add_defaults_idem, map_map. reflexivity.
+Qed.
+
+(* ---------- what a leader change does ---------- *)
+Lemma leader_keeps_storage s : stored (leader_change s) = stored s.
+Proof. unfold leader_change. destruct (rp_pr _); reflexivity. Qed.
+Theorem new_leader_serves_reload_pf s c : stored s = Some c -> served (leader_change s) = reload_conf c.
+Proof. unfold leader_change. intros ->. destruct (rp_pr _); reflexivity. Qed.
+Lemma leader_change_unfold s :
+  let c := match stored s with Some c => reload_conf c | None => served s end in
+  (rp_pr (c_repl c) = true /\
+   leader_change s = State c (stored s) (Some (match strule s with Some r => r | None => Rule (rp_max (c_repl c)) (rp_labels (c_repl c)) end))
+                           (Some (match strule s with Some r => r | None => Rule (rp_max (c_repl c)) (rp_labels (c_repl c)) end)) true (c_rm c)) \/
+  (rp_pr (c_repl c) = false /\ leader_change s = State c (stored s) None (strule s) false (c_rm c)).
+Proof.
+  intros c. unfold leader_change. fold c. destruct (rp_pr (c_repl c)); [left|right]; split; reflexivity.
+Qed.
+Theorem new_leader_serves_stored_rule_pf s r :
+  rp_pr (c_repl (served (leader_change s))) = true -> strule s = Some r ->
+  srule (leader_change s) = Some r /\ strule (leader_change s) = Some r.
+Proof.
+  destruct (leader_change_unfold s) as [[E ->]|[E ->]]; cbn [served srule strule]; intros Hp Hr.
+  - rewrite Hr. split; reflexivity.
+  - rewrite E in Hp. discriminate.
+Qed.
+(* after an accepted change the next leader serves the documented normalisation of what was served *)
+Theorem leader_after_accept_pf s o s' : run_cmd s o = (s', ROk) -> served (leader_change s') = normalise (served s').
+Proof. intros H. apply new_leader_serves_reload_pf, (accepted_config_is_stored_pf _ _ _ H). Qed.
+(* a second leader change right after the first changes nothing at all *)
+Theorem leader_change_idem_pf s : leader_change (leader_change s) = leader_change s.
+Proof.
+  assert (K : forall s1, match stored s1 with Some c => reload_conf c | None => served s1 end = served (leader_change s1)).
+  { intros s1. destruct (leader_change_unfold s1) as [[_ ->]|[_ ->]]; reflexivity. }
+  pose proof (K s) as Ks.
+  assert (Kc : match stored (leader_change s) with Some c => reload_conf c | None => served (leader_change s) end = served (leader_change s)).
+  { rewrite leader_keeps_storage. rewrite <- Ks. destruct (stored s) as [c|]; reflexivity. }
+  destruct (leader_change_unfold (leader_change s)) as [[E ->]|[E ->]]; rewrite Kc in *;
+    destruct (leader_change_unfold s) as [[E0 Hs]|[E0 Hs]]; rewrite Ks in *; rewrite Hs in *; cbn [served stored strule srule rm_init mm] in *;
+    try congruence; reflexivity.
+Qed.
+
+(* ---------- the invariants hold after a leader change, whatever happened before ---------- *)
+Lemma rule_inv_leader s : rule_inv (leader_change s).
+Proof. unfold rule_inv. destruct (leader_change_unfold s) as [[E ->]|[E ->]]; cbn; [reflexivity|discriminate]. Qed.
+Lemma init_inv_leader s : init_inv (leader_change s).
+Proof. unfold init_inv. destruct (leader_change_unfold s) as [[E ->]|[E ->]]; cbn [served rm_init]; [reflexivity|]. rewrite E. discriminate. Qed.
+
+Definition hreach (c0 : conf) (hs : list hop) : state := run_state run_hop (boot c0) hs.
+(* no rule write SINCE THE LAST LEADER CHANGE was applied-but-reported-failed (a new leader serves the stored rule, so what
+   happened before it does not matter) *)
+Fixpoint hdefinite_from (d : Prop) (hs : list hop) : Prop :=
+  match hs with
+  | [] => d
+  | HSet o :: r => hdefinite_from (d /\ op_definite o) r
+  | HLeader :: r => hdefinite_from True r
+  end.
+Definition hdefinite := hdefinite_from True.
+Lemma run_hop_state s h : fst (run_hop s h) = fst (run_hcmd s h).
+Proof. unfold run_hop. destruct (run_hcmd s h); reflexivity. Qed.
+
+Definition accepted_full_h : Prop :=
+  forall c0 hs o s', hdefinite (hs ++ [HSet o]) -> run_cmd (hreach c0 hs) o = (s', ROk) ->
+    option_map reload_conf (stored s') = Some (normalise (served s')) /\
+    (rp_pr (c_repl (served s')) = true -> strule s' = srule s') /\
+    served (leader_change s') = normalise (served s').
+Theorem accepted_full_h_pf : accepted_full_h.
+Proof.
+  intros c0 hs o s' Hn H. split; [rewrite (accepted_config_is_stored_pf _ _ _ H); reflexivity|].
+  split; [|eapply leader_after_accept_pf; eauto].
+  intros Hp. unfold hreach in H.
+  assert (G : forall hs s (d : Prop), (d -> rule_inv s /\ init_inv s) -> hdefinite_from d (hs ++ [HSet o]) ->
+            rule_inv (run_state run_hop s hs) /\ init_inv (run_state run_hop s hs) /\ op_definite o).
+  { clear. induction hs as [|a r IH]; intros s d Hd Hn; cbn [app hdefinite_from run_state] in *.
+    - destruct Hn as [D Ho]. destruct (Hd D). auto.
+    - rewrite run_hop_state. destruct a as [a|]; cbn [run_hcmd fst].
+      + destruct (run_cmd s a) as [s1 r1] eqn:E. cbn [fst]. eapply IH; [|exact Hn].
+        intros [D Ha]. destruct (Hd D) as [I J]. split; [eapply rule_inv_step; eauto|eapply init_inv_step; eauto].
+      + eapply IH; [|exact Hn]. intros _. split; [apply rule_inv_leader|apply init_inv_leader]. }
+  destruct (G hs (boot c0) True (fun _ => conj (rule_inv_boot c0) (init_inv_boot c0)) Hn) as (I&J&Ho).
+  pose proof (rule_inv_step _ _ _ _ I Ho H) as I'. pose proof (init_inv_step _ _ _ _ J H) as J'.
+  symmetry. apply I', J', Hp.
 Qed.
